@@ -137,13 +137,14 @@ func (server *Server) Start() error {
 
 // Stop stops the server.
 func (server *Server) Stop() error {
-	if err := server.ConnManager.Stop(); err != nil {
-		return err
-	}
+	// A connection that could not be closed cleanly (e.g. a TLS peer that has
+	// already reset it) must not keep the listeners open: the error is
+	// reported once the server has been stopped.
+	connErr := server.ConnManager.Stop()
 	verifPoint("stop.mid")
 
 	if err := server.close(); err != nil {
-		return err
+		return errors.Join(connErr, err)
 	}
 
 	// No connection is accepted after Stop returns.
@@ -160,7 +161,7 @@ func (server *Server) Stop() error {
 	}
 
 	verifPoint("stop.return")
-	return nil
+	return connErr
 }
 
 // Restart restarts the server.
